@@ -229,10 +229,13 @@ func init() {
 	regCheck("C19", "fld", func(a []*Sx) (bool, []Finding) { return false, nil })
 	// ---- C19 (cases carry the owner of the truncation offset in a note) ----
 	regCheck("C19", "msg", func(a []*Sx) (bool, []Finding) {
-		var owner, prior *Sx
+		var owner, prior, subTag *Sx
 		for _, o := range a[1].List {
 			if o.Head() == "note" && o.List[1].Head() == "c19" {
 				owner, prior = o.List[1].List[1], o.List[1].List[2]
+			}
+			if o.Head() == "note" && o.List[1].Head() == "c19p" {
+				owner, subTag, prior = o.List[1].List[1], o.List[1].List[2], o.List[1].List[3]
 			}
 		}
 		d := firstOpArg(a[1].List, "unpack")
@@ -265,6 +268,10 @@ func init() {
 		err := m.Unpack(append([]byte(nil), d.Hex()...))
 		var fs []Finding
 		if err == nil {
+			if subTag != nil {
+				// the corrupted length happened to be acceptable at message level
+				return false, nil
+			}
 			return true, []Finding{{"c19-truncated-accepted", "a message cut inside an element is accepted"}}
 		}
 		var ue *iso8583errors.UnpackError
@@ -277,6 +284,9 @@ func init() {
 		ids := ue.FieldIDs()
 		if len(ids) == 0 || ids[0] != owner.Atom {
 			fs = append(fs, Finding{"c19-wrong-owner", fmt.Sprintf("truncation inside element %s is reported against %v", owner.Atom, ids)})
+		}
+		if subTag != nil && len(ids) > 0 && ids[0] == owner.Atom && (len(ids) < 2 || ids[1] != string(subTag.Hex())) {
+			fs = append(fs, Finding{"c19-subfield-path", fmt.Sprintf("the length prefix of subfield %s of element %s is corrupted and that subfield cannot be decoded, but the id path is %q", string(subTag.Hex()), owner.Atom, ids)})
 		}
 		// elements before the failing one remain readable with their decoded values
 		for _, e := range prior.List {
